@@ -47,11 +47,12 @@ Definition ok2 (s : state) (g : nat) (p : pcT) : Prop :=
       stt s g = Suspended /\ clo s g = false /\ cal s g = None /\ waitfor s c g /\ g <> 0 /\ hcx s g = None
   | E0 _ => stt s g = OK /\ clo s g = false /\ g <> 0
   | E1 c _ | E2 c _ | E3 c _ =>
-      stt s g = OK /\ clo s g = false /\ cal s g = None /\ waitfor s c g /\ hcx s g = None /\ g <> 0
-  | E4 c _ => stt s g = OK /\ clo s g = true /\ cal s g = None /\ waitfor s c g /\ hcx s g = None /\ g <> 0
+      stt s g = OK /\ clo s g = false /\ cal s g = None /\ waitfor s c g /\ g <> 0 /\ hcx s g <> None
+  | E4 c _ => stt s g = OK /\ clo s g = true /\ cal s g = None /\ waitfor s c g /\ g <> 0 /\ hcx s g <> None
   | E6 c _ | E6r c _ | E7 c _ =>
       stt s g = Dead /\ clo s g = true /\ cal s g = None /\ waitfor s c g /\ hcx s g = None
-  | E8 _ | E9 _ | E10 | Done => stt s g = Dead /\ clo s g = true /\ cal s g = None /\ hcx s g = None
+  | E8 c | E9 c => stt s g = Dead /\ clo s g = true /\ cal s g = None /\ hcx s g = None /\ c <> g
+  | E10 | Done => stt s g = Dead /\ clo s g = true /\ cal s g = None /\ hcx s g = None
   | E5 _ _ | X1 _ _ _ | X2 _ _ _ | X3 _ _ _ | XY1 _ _ => False
   end.
 
@@ -61,7 +62,7 @@ Record Inv2 (s : state) : Prop := mkInv2 {
   jG : forall u h, mux (th s u) = Some h <-> holds2 (pc s h) h u = true;
   jD : forall h, h <> 0 -> h < n s -> stt s h = OK -> hcx s h = None -> linked2 s h;
   jH : forall h c m, hcx s h = Some (c, m) ->
-         h <> 0 /\ stt s h = OK /\ cal s h = None /\ waitfor s c h /\ clo s h = false;
+         h <> 0 /\ stt s h = OK /\ cal s h = None /\ waitfor s c h;
   jP : forall h, ok2 s h (pc s h) }.
 
 Ltac ltb_hyps := repeat match goal with
@@ -84,19 +85,93 @@ Proof.
   - intros h. unfold upd. destruct (Nat.eqb_spec h 0); simpl; unfold stt, clo; simpl; auto. lia.
 Qed.
 
-(* common preamble of the preservation lemmas *)
-Ltac pre H Pg HL P :=
+Lemma transit_active : forall s c h, transit s c h -> active (pc s c) = true.
+Proof. unfold transit. intros s c h. destruct (pc s c); simpl; tauto. Qed.
+
+(* an active thread that still has a caller: the caller is blocked in Resume/Close waiting for it,
+   and the thread is not in the handler phase of end *)
+Lemma caller_wait : forall s g c, Baton s -> Inv2 s -> g < n s -> stt s g = OK ->
+  active (pc s g) = true -> cal s g = Some c -> waitfor s c g /\ hcx s g = None.
+Proof.
+  intros s g c [A _] I2 L SO AC CS.
+  assert (HN : hcx s g = None).
+  { destruct (hcx s g) as [[c0 m0]|] eqn:E; auto.
+    destruct (jH _ I2 _ _ _ E) as (_ & _ & CN & _). congruence. }
+  split; auto.
+  assert (G0 : g <> 0) by (intro; subst; destruct (jM _ I2) as (_ & C0 & _); congruence).
+  pose proof (jD _ I2 g G0 L SO HN) as LK. unfold linked2 in LK. rewrite CS in LK.
+  destruct LK as [NE [W|T]]; auto.
+  exfalso. apply NE. apply A; auto. eapply transit_active; eauto.
+Qed.
+
+(* common preamble of the preservation lemmas: case analysis, facts about the stepping goroutine and
+   the threads its pc names, and refutation of every branch that ends in Panicked *)
+Ltac destr_conj := repeat match goal with H : _ /\ _ |- _ => destruct H end.
+
+Ltac enrich P :=
+  destr_conj;
+  repeat match goal with H : pc _ _ = _ \/ pc _ _ = _ |- _ => destruct H end;
+  try match goal with Hw : pc ?s ?c = R8 _ |- _ =>
+        let Q := fresh "Pc" in pose proof (P c) as Q; rewrite Hw in Q; cbn [ok2] in Q end;
+  try match goal with Hw : pc ?s ?c = S0 |- _ =>
+        let Q := fresh "Pt" in pose proof (P c) as Q; rewrite Hw in Q; cbn [ok2] in Q end;
+  try match goal with Hw : pc ?s ?c = Y8 |- _ =>
+        let Q := fresh "Pt" in pose proof (P c) as Q; rewrite Hw in Q; cbn [ok2] in Q end;
+  unfold stt, cal, clo, hcx in *; destr_conj.
+
+Ltac kill_unheld G Pg :=
+  match goal with
+  | Hb : match mux (th ?s ?u) with _ => _ end = false |- _ =>
+      match type of Pg with pc s ?g0 = _ =>
+        let Q := fresh in
+        assert (Q : mux (th s u) = Some g0)
+          by (apply (G u g0); rewrite Pg; cbn [holds2]; rewrite ?Nat.eqb_refl, ?orb_true_r; reflexivity);
+        rewrite Q in Hb; rewrite Nat.eqb_refl in Hb; discriminate Hb end
+  end.
+
+Ltac kill_status :=
+  repeat match goal with H : status _ = _ |- _ => rewrite H in * end;
+  cbn [st_eqb negb andb] in *; discriminate.
+
+Ltac refute_panic G D Pg :=
+  match goal with
+  | |- context [Panicked] =>
+      try solve [exfalso; kill_unheld G Pg];
+      try solve [exfalso; kill_status];
+      try solve [exfalso; congruence];
+      try solve [exfalso; match type of Pg with pc ?s ?g0 = E0 _ =>
+                   let L := fresh in
+                   assert (L : linked2 s g0) by (apply D; unfold stt, hcx; auto; congruence);
+                   unfold linked2, cal in L;
+                   match goal with Hc : caller (th s g0) = None |- _ => rewrite Hc in L; exact L end end]
+  | _ => idtac
+  end.
+
+Ltac get_wait BA I2 Pg :=
+  try match goal with
+      | Hc : caller (th ?s ?g0) = Some ?c |- _ =>
+          match type of Pg with pc s g0 = ?p =>
+            let W := fresh "CW" in
+            assert (W : waitfor s c g0 /\ hcx s g0 = None)
+              by (apply caller_wait; auto; [unfold stt; tauto | rewrite Pg; reflexivity]);
+            unfold waitfor, hcx in W end
+      end.
+
+Ltac pre H Pg HL BA I2 :=
+  pose proof I2 as [N M G D Hc P]; pose proof BA as [A _];
   step_cases H Pg; brk H;
   try (rewrite HL in *; cbn in *; try discriminate);
   match type of Pg with pc _ ?g0 = _ =>
     let Pgg := fresh "Pgg" in
-    pose proof (P g0) as Pgg; rewrite Pg in Pgg; cbn [ok2] in Pgg; try (exfalso; exact Pgg); unf; ltb_hyps end.
+    pose proof (P g0) as Pgg; rewrite Pg in Pgg; cbn [ok2] in Pgg; try (exfalso; exact Pgg);
+    unfold waitfor, tgt, held_by, is_free, in_hterm in *; ltb_hyps; get_wait BA I2 Pg; enrich P end;
+  refute_panic G D Pg.
 
 Lemma pres_N : forall cf s g l s', handlers_locked cf = false ->
   Baton s -> Inv2 s -> step cf s (mkAct g l) = Some s' ->
   forall h, n s' <= h -> pc s' h = NotCreated /\ mux (th s' h) = None.
 Proof.
-  intros cf s g l s' HL [A _] [N M G D Hc P] H. pre H Pg HL P.
+  intros cf s g l s' HL BA I2 H. pre H Pg HL BA I2.
   all: intros h Hh; simp; pose proof (N h) as Nh; pose proof (N g) as Ng.
   all: ucase; simp; try (exfalso; lia); auto; try (apply Nh; lia).
   all: try solve [destruct Nh as [Nh1 Nh2]; [lia|]; split; auto; intuition congruence].
@@ -106,28 +181,9 @@ Lemma pres_M : forall cf s g l s', handlers_locked cf = false ->
   Baton s -> Inv2 s -> step cf s (mkAct g l) = Some s' ->
   stt s' 0 = OK /\ cal s' 0 = None /\ 0 < n s' /\ hcx s' 0 = None.
 Proof.
-  intros cf s g l s' HL [A _] [N M G D Hc P] H. pre H Pg HL P.
+  intros cf s g l s' HL BA I2 H. pre H Pg HL BA I2.
   all: pose proof (Hc g) as Hcg.
   all: unf; simp; ucase; simp; try (intuition (try congruence; try lia)).
   all: try (destruct (hctx (th s 0)) as [[? ?]|] eqn:E0; [destruct (Hcg _ _ eq_refl); congruence|congruence]).
 Qed.
 
-Lemma pres_G : forall cf s g l s', handlers_locked cf = false ->
-  Baton s -> Inv2 s -> step cf s (mkAct g l) = Some s' ->
-  forall u h, mux (th s' u) = Some h <-> holds2 (pc s' h) h u = true.
-Proof.
-  intros cf s g l s' HL [A _] [N M G D Hc P] H. pre H Pg HL P.
-  all: intros u h; pose proof (G u h) as Guh; pose proof (G u g) as Gug; pose proof (N u) as Nu; pose proof (N h) as Nh;
-       rewrite ?Pg in *; cbn [holds2] in *; simp.
-  all: repeat match goal with H : pc _ _ = _ |- _ => rewrite H in * end; cbn [holds2] in *.
-  all: try (destruct k); try (destruct (rel_after_send cf)); unfold after_recv;
-       try (destruct m; try destruct (c =? 0) eqn:?); cbn [holds2] in *.
-  all: ucase; simp; rewrite ?Pg in *; cbn [holds2 orb] in *;
-       repeat match goal with H : pc _ _ = _ |- _ => rewrite H in * end; cbn [holds2 orb] in *;
-       try tauto; try (intuition congruence).
-  all: rewrite ?Nat.eqb_refl, ?orb_true_r in *; cbn [orb] in *;
-       repeat match goal with H : context [match mux ?x with _ => _ end] |- _ => destruct (mux x) eqn:? end;
-       ucase; unfold thNew in *; cbn [mux] in *; rewrite ?Nat.eqb_refl, ?orb_true_r in *; cbn [orb] in *;
-       try (intuition congruence).
-  Show Existentials.
-Abort.
